@@ -26,7 +26,7 @@ func init() { core.Register(c15{}) }
 func (c15) ID() string    { return "C15" }
 func (c15) Level() string { return "exploration" }
 func (c15) Rule() string {
-	return "seeded sets of 1..5 configuration sources of the kinds raw document, file (written under .work), command-line arguments (loader.NewArgsLoader with generated --app.config=k=v), and harness loaders of the classes ordered / priority-ordered, over key trees (depth <= 3, lower-case keys without dots) with overlapping and disjoint keys and type changes on overlap (scalar<->scalar of another type, scalar<->list, scalar->mapping, mapping->scalar); the sources are installed through every kind of option sequence (SetConfigLoader, AddConfigLoader, SetConfig, singly and combined, in seeded orders). Oracle: an independent deep-merge model (mappings merge recursively, scalars and lists replace) applied in the contract order (priority-ordered by Order, then ordered by Order, then the rest in the order added; SetConfigLoader replaces the list, the adding options append) is compared with App.Get for every leaf path and every subtree, and with prefix-bound fields of a reflect.StructOf holder. non-trivial = >= 2 effective sources with at least one overlapping path; distinct = canonical (sources, option sequence) signature; every sixth case drives a Configure through 2-3 rounds of AddLoaders+Initialize and checks, after each round, every path on which merge-on-top and merge-from-scratch agree; command-line sources address nested sections with dotted keys; every sixth case has 13-32 sources; file sources with lines longer than 64 KiB; empty values, '=' inside values, a missing configured file; command-line values containing commas"
+	return "seeded sets of 1..5 configuration sources of the kinds raw document, file (written under .work), command-line arguments (loader.NewArgsLoader with generated --app.config=k=v), and harness loaders of the classes ordered / priority-ordered, over key trees (depth <= 3, lower-case keys without dots) with overlapping and disjoint keys and type changes on overlap (scalar<->scalar of another type, scalar<->list, scalar->mapping, mapping->scalar); the sources are installed through every kind of option sequence (SetConfigLoader, AddConfigLoader, SetConfig, singly and combined, in seeded orders). Oracle: an independent deep-merge model (mappings merge recursively, scalars and lists replace) applied in the contract order (priority-ordered by Order, then ordered by Order, then the rest in the order added; SetConfigLoader replaces the list, the adding options append) is compared with App.Get for every leaf path and every subtree, and with prefix-bound fields of a reflect.StructOf holder. non-trivial = >= 2 effective sources with at least one overlapping path; distinct = canonical (sources, option sequence) signature; every sixth case drives a Configure through 2-3 rounds of AddLoaders+Initialize and checks, after each round, every path on which merge-on-top and merge-from-scratch agree; command-line sources address nested sections with dotted keys; every sixth case has 13-32 sources; file sources with lines longer than 64 KiB; empty values, '=' inside values, a missing configured file; command-line values containing commas; file sources fed through a pipe (/proc/self/fd/N)"
 }
 func (c15) Assumptions() []string {
 	return []string{
@@ -178,9 +178,13 @@ func (p c15) Run(c *core.Ctx) {
 	}
 	os.MkdirAll(tmpDir, 0o755)
 	var files []string
+	var pipes []*os.File
 	defer func() {
 		for _, f := range files {
 			os.Remove(f)
+		}
+		for _, p := range pipes {
+			p.Close()
 		}
 	}()
 	for i := 0; i < ns; i++ {
@@ -208,8 +212,20 @@ func (p c15) Run(c *core.Ctx) {
 			haveFile = true
 			b, _ := yaml.Marshal(s.tree)
 			f := filepath.Join(tmpDir, fmt.Sprintf("c15-%d-%d-%d.yaml", os.Getpid(), c.Index, i))
-			os.WriteFile(f, b, 0o644)
-			files = append(files, f)
+			if c.Rng.Intn(4) == 0 {
+				// the file is a pipe (--config <(render), /dev/stdin, /proc/self/fd/N): readable, but its
+				// reported size is 0
+				if pr, pw, err := os.Pipe(); err == nil {
+					pipes = append(pipes, pr)
+					go func() { pw.Write(b); pw.Close() }()
+					f = fmt.Sprintf("/proc/self/fd/%d", pr.Fd())
+					c.Count("file_sources_fed_through_a_pipe", 1)
+				}
+			}
+			if !strings.HasPrefix(f, "/proc/") {
+				os.WriteFile(f, b, 0o644)
+				files = append(files, f)
+			}
 			s.ld = loader.NewFileLoader(f)
 			s.ord = 0
 			usedOrd["priority0"] = true
@@ -582,6 +598,14 @@ func (p c15) reinit(c *core.Ctx) {
 			desc = append(desc, fmt.Sprintf("round %d: %s kind=%s order=%d tree=%s", round, s.label, s.kind, s.ord, canon(s.tree)))
 		}
 		cfg.AddLoaders(lds...)
+		if round > 0 && c.Rng.Intn(3) == 0 {
+			// the binder is replaced at run time (another store): the next Initialize fills it from all sources in
+			// the loader sequence - nothing of the old store's content is owed to it
+			cfg.SetBinder(binder.NewViperBinder("yaml"))
+			onTop, applied = map[string]any{}, nil
+			desc = append(desc, fmt.Sprintf("round %d: binder replaced before Initialize", round))
+			c.Count("rounds_with_a_replaced_binder", 1)
+		}
 		var err error
 		func() {
 			defer func() {
